@@ -131,7 +131,7 @@ func cmdWorker(args []string) {
 }
 
 // watchdog reports an execution that stops reaching scheduling points (a loop without any
-// synchronisation operation cannot be preempted or bounded by the step horizon): after 40 s of CPU time
+// synchronisation operation cannot be preempted or bounded by the step horizon): after 90 s of CPU time
 // consumed without a scheduling point while an execution is active it emits a report carrying the violation and
 // the choices made so far, and ends the worker process.
 func cpuSeconds() float64 {
@@ -160,11 +160,11 @@ func watchdog(j *Job, shard int, out *bufio.Writer) chan struct{} {
 			}
 			// measured in CPU time of this process, not wall time: a worker starved by a loaded machine
 			// does not accumulate CPU, a thread spinning without synchronisation does
-			if cpuSeconds()-cpu0 >= 40 {
+			if cpuSeconds()-cpu0 >= 90 {
 				rep := newReport(j.Name, shard)
 				rep.Exhaustive = false
 				rep.CapHit = "watchdog"
-				rep.violate(Viol{Kind: "hang", Msg: "an execution consumed 40 s of CPU without reaching a scheduling point: a thread is looping without any synchronisation operation", Site: "no scheduling point", Job: j.Name, Choices: vrt.SnapshotChoices()})
+				rep.violate(Viol{Kind: "hang", Msg: "an execution consumed 90 s of CPU without reaching a scheduling point: a thread is looping without any synchronisation operation", Site: "no scheduling point", Job: j.Name, Choices: vrt.SnapshotChoices()})
 				bs, _ := json.Marshal(rep)
 				out.Write(bs)
 				out.WriteByte('\n')
